@@ -413,4 +413,305 @@ theorem exec_ghost_mono {c : Cfg} {s s' : Store} {op : Op} (h : exec c s op = .o
           exact snapshotLoop_mono h1
       · cases h
 
+/-! ## holders over whole histories -/
+
+/-- every stored output was created by a transaction that has a FINALIZATION record
+    (true of the empty database and preserved by every call: `exec_inv`) -/
+def Inv (s : Store) : Prop := ∀ y, (s.utxo.get y).isSome → (s.fin.get y.1).isSome
+
+/-- effect of finalization code on the lock families -/
+structure FinRel (s s' : Store) : Prop where
+  deposit : s'.deposit = s.deposit
+  mint : s'.mint = s.mint
+  tx : s'.tx = s.tx
+  finMono : ∀ h, (s.fin.get h).isSome → (s'.fin.get h).isSome
+  utxoKeep : ∀ y, (s.fin.get y.1).isSome → s'.utxo.get y = s.utxo.get y
+  utxoNew : ∀ y, (s'.utxo.get y).isSome → (s.utxo.get y).isSome ∨ (s'.fin.get y.1).isSome
+
+theorem FinRel.refl (s : Store) : FinRel s s :=
+  ⟨rfl, rfl, rfl, fun _ h => h, fun _ _ => rfl, fun _ h => Or.inl h⟩
+
+theorem FinRel.trans {a b c : Store} (h1 : FinRel a b) (h2 : FinRel b c) : FinRel a c where
+  deposit := h2.deposit.trans h1.deposit
+  mint := h2.mint.trans h1.mint
+  tx := h2.tx.trans h1.tx
+  finMono := fun h hh => h2.finMono h (h1.finMono h hh)
+  utxoKeep := fun y hy => (h2.utxoKeep y (h1.finMono _ hy)).trans (h1.utxoKeep y hy)
+  utxoNew := fun y hy => by
+    rcases h2.utxoNew y hy with h | h
+    · rcases h1.utxoNew y h with h' | h'
+      · exact Or.inl h'
+      · exact Or.inr (h2.finMono _ h')
+    · exact Or.inr h
+
+theorem writeUTXOs_rel {exc : List Nat} {tx i : Nat} {outs : List (List Nat)} {s s' : Store}
+    (h : writeUTXOs exc tx i outs s = some s') :
+    s'.deposit = s.deposit ∧ s'.mint = s.mint ∧ s'.tx = s.tx ∧ s'.fin = s.fin ∧
+    (∀ y, y.1 ≠ tx → s'.utxo.get y = s.utxo.get y) ∧
+    (∀ y, (s'.utxo.get y).isSome → (s.utxo.get y).isSome ∨ y.1 = tx) := by
+  induction outs generalizing s i with
+  | nil =>
+    simp only [writeUTXOs, Option.some.injEq] at h; subst h
+    exact ⟨rfl, rfl, rfl, rfl, fun _ _ => rfl, fun _ h => Or.inl h⟩
+  | cons ks rest ih =>
+    unfold writeUTXOs at h
+    split at h
+    · cases h
+    · next s1 h1 =>
+      obtain ⟨u1, d1, m1, t1, f1, _, _⟩ := lockKeysFinal_ext h1
+      obtain ⟨d2, m2, t2, f2, k2, n2⟩ := ih h
+      refine ⟨d2.trans d1, m2.trans m1, t2.trans t1, f2.trans f1, ?_, ?_⟩
+      · intro y hy
+        rw [k2 y hy]
+        show (s1.utxo.set (tx, i) 0).get y = s.utxo.get y
+        rw [Map.get_set_ne _ _ (fun e => hy (by rw [← e])), u1]
+      · intro y hy
+        rcases n2 y hy with h' | h'
+        · by_cases e : (tx, i) = y
+          · exact Or.inr (by rw [← e])
+          · have : (s1.utxo.set (tx, i) 0).get y = s.utxo.get y := by
+              rw [Map.get_set_ne _ _ e, u1]
+            exact Or.inl (by rw [← this]; exact h')
+        · exact Or.inr h'
+
+theorem finalizeTransaction_rel {exc : List Nat} {t : Tx} {s s' : Store}
+    (h : finalizeTransaction exc s t = some s') : FinRel s s' := by
+  unfold finalizeTransaction at h
+  split at h
+  · simp only [Option.some.injEq] at h; subst h; exact FinRel.refl _
+  · next hfin =>
+    obtain ⟨d, m, tx, f, k, n⟩ := writeUTXOs_rel h
+    refine ⟨d, m, tx, ?_, ?_, ?_⟩
+    · intro h' hh
+      rw [f]
+      show ((s.fin.set t.id ()).get h').isSome
+      rw [Map.get_set]; split
+      · rfl
+      · exact hh
+    · intro y hy
+      have : y.1 ≠ t.id := by
+        intro e; rw [e, hfin] at hy; cases hy
+      exact k y this
+    · intro y hy
+      rcases n y hy with h' | h'
+      · exact Or.inl h'
+      · refine Or.inr ?_
+        rw [f, h']
+        show ((s.fin.set t.id ()).get t.id).isSome
+        rw [Map.get_set_same]; rfl
+
+theorem snapshotLoop_rel {exc : List Nat} {node : Nat} {txs : List Tx} {s s' : Store}
+    (h : snapshotLoop exc node txs s = some s') : FinRel s s' := by
+  induction txs generalizing s with
+  | nil => simp only [snapshotLoop, Option.some.injEq] at h; subst h; exact FinRel.refl _
+  | cons t ts ih =>
+    unfold snapshotLoop at h
+    split at h
+    · cases h
+    · next s1 h1 =>
+      have r1 := finalizeTransaction_rel h1
+      have r2 : FinRel s1 { s1 with unique := s1.unique.set (node, t.id) () } :=
+        ⟨rfl, rfl, rfl, fun _ h => h, fun _ _ => rfl, fun _ h => Or.inl h⟩
+      exact (r1.trans r2).trans (ih h)
+
+theorem exec_snapshot_rel {c : Cfg} {s s' : Store} {node : Nat} {txs : List Tx}
+    (h : exec c s (.snapshot node txs) = .ok s') : FinRel s s' := by
+  simp only [exec, writeSnapshot] at h
+  split at h
+  · cases h
+  · split at h
+    · split at h
+      · cases h
+      · next s1 h1 => simp only [Res.ok.injEq] at h; subst h; exact snapshotLoop_rel h1
+    · cases h
+
+/-- what `LockDepositInput` can do -/
+theorem lockDeposit_ok {s s' : Store} {d tx : Nat} {fork : Bool} (h : lockDeposit s d tx fork = .ok s') :
+    (s.deposit.get d = none ∧ s' = { s with deposit := s.deposit.set d tx }) ∨
+    (s.deposit.get d = some tx ∧ s' = s) ∨
+    (∃ cur, s.deposit.get d = some cur ∧ cur ≠ tx ∧ fork = true ∧ s.fin.get cur = none ∧
+       s' = { s with tx := s.tx.del cur, deposit := s.deposit.set d tx }) := by
+  unfold lockDeposit at h
+  split at h
+  · next hg => simp only [Res.ok.injEq] at h; exact Or.inl ⟨hg, h.symm⟩
+  · next cur hg =>
+    split at h
+    · next e => simp only [Res.ok.injEq] at h; subst e; exact Or.inr (Or.inl ⟨hg, h.symm⟩)
+    · next e =>
+      split at h
+      · next hf =>
+        split at h
+        · cases h
+        · next s1 hp =>
+          obtain ⟨hfin, rfl⟩ := pruneTransaction_some hp
+          simp only [Res.ok.injEq] at h
+          exact Or.inr (Or.inr ⟨cur, hg, e, hf, hfin, h.symm⟩)
+      · cases h
+
+/-- what `LockMintInput` can do -/
+theorem lockMint_ok {s s' : Store} {b a tx : Nat} {fork : Bool} (h : lockMint s b a tx fork = .ok s') :
+    (s.mint.get b = none ∧ s' = { s with mint := s.mint.set b (tx, a) }) ∨
+    (s.mint.get b = some (tx, a) ∧ s' = s) ∨
+    (∃ cur, s.mint.get b = some cur ∧ cur ≠ (tx, a) ∧ fork = true ∧ s.fin.get cur.1 = none ∧
+       s' = { s with tx := s.tx.del cur.1, mint := s.mint.set b (tx, a) }) := by
+  unfold lockMint at h
+  split at h
+  · next hg => simp only [Res.ok.injEq] at h; exact Or.inl ⟨hg, h.symm⟩
+  · next cur hg =>
+    split at h
+    · next e =>
+      simp only [Res.ok.injEq] at h
+      have : cur = (tx, a) := by cases cur; simp_all
+      subst this; exact Or.inr (Or.inl ⟨hg, h.symm⟩)
+    · next e =>
+      split at h
+      · next hf =>
+        split at h
+        · cases h
+        · next s1 hp =>
+          obtain ⟨hfin, rfl⟩ := pruneTransaction_some hp
+          simp only [Res.ok.injEq] at h
+          refine Or.inr (Or.inr ⟨cur, hg, ?_, hf, hfin, h.symm⟩)
+          intro ec; apply e; rw [ec]; exact ⟨rfl, rfl⟩
+      · cases h
+
+theorem writeTransaction_ok {s s' : Store} {t : Tx} (h : writeTransaction s t = .ok s') :
+    s' = s ∨ s' = { s with tx := s.tx.set t.id () } := by
+  unfold writeTransaction at h
+  split at h
+  · split at h
+    · simp only [Res.ok.injEq] at h; exact Or.inl h.symm
+    · split at h
+      · cases h
+      · simp only [Res.ok.injEq] at h; exact Or.inr h.symm
+  · cases h
+
+/-- the lock families other than the one a call is about -/
+theorem exec_frame {c : Cfg} {s s' : Store} {op : Op} (h : exec c s op = .ok s') :
+    (∀ h', (s.fin.get h').isSome → (s'.fin.get h').isSome) ∧
+    ((∀ ins tx f, op ≠ .lockUTXOs ins tx f) → (∀ n txs, op ≠ .snapshot n txs) → s'.utxo = s.utxo ∧ s'.fin = s.fin) ∧
+    ((∀ d tx f, op ≠ .lockDeposit d tx f) → s'.deposit = s.deposit) ∧
+    ((∀ b a tx f, op ≠ .lockMint b a tx f) → s'.mint = s.mint) := by
+  cases op with
+  | lockUTXOs ins tx fork =>
+    obtain ⟨f, d, m, _⟩ := lockUTXOs_frame (by simpa [exec] using h)
+    exact ⟨fun _ hh => by rw [f]; exact hh, fun hn => absurd rfl (hn ins tx fork), fun _ => d, fun _ => m⟩
+  | lockDeposit d tx fork =>
+    simp only [exec] at h
+    rcases lockDeposit_ok h with ⟨_, rfl⟩ | ⟨_, rfl⟩ | ⟨_, _, _, _, _, rfl⟩ <;>
+      exact ⟨fun _ hh => hh, fun _ _ => ⟨rfl, rfl⟩, fun hn => absurd rfl (hn d tx fork), fun _ => rfl⟩
+  | lockMint b a tx fork =>
+    simp only [exec] at h
+    rcases lockMint_ok h with ⟨_, rfl⟩ | ⟨_, rfl⟩ | ⟨_, _, _, _, _, rfl⟩ <;>
+      exact ⟨fun _ hh => hh, fun _ _ => ⟨rfl, rfl⟩, fun _ => rfl, fun hn => absurd rfl (hn b a tx fork)⟩
+  | lockGhostKeys keys tx fork =>
+    simp only [exec, lockGhostKeys] at h
+    split at h
+    · cases h
+    · next s1 h1 =>
+      simp only [Res.ok.injEq] at h; subst h
+      obtain ⟨u, d, m, _, f, _, _⟩ := lockGhostLoop_ext h1
+      exact ⟨fun _ hh => by rw [f]; exact hh, fun _ _ => ⟨u, f⟩, fun _ => d, fun _ => m⟩
+  | writeTx t =>
+    simp only [exec] at h
+    rcases writeTransaction_ok h with rfl | rfl <;>
+      exact ⟨fun _ hh => hh, fun _ _ => ⟨rfl, rfl⟩, fun _ => rfl, fun _ => rfl⟩
+  | snapshot node txs =>
+    have r := exec_snapshot_rel h
+    exact ⟨r.finMono, fun _ hn => absurd rfl (hn node txs), fun _ => r.deposit, fun _ => r.mint⟩
+
+/-- `Inv` is an invariant of every call -/
+theorem exec_inv {c : Cfg} {s s' : Store} {op : Op} (h : exec c s op = .ok s') (hi : Inv s) : Inv s' := by
+  cases op with
+  | lockUTXOs ins tx fork =>
+    obtain ⟨f, _, _, _, _, _, _, _, dom⟩ := lockUTXOs_frame (by simpa [exec] using h)
+    intro y hy; rw [f]; rw [dom y] at hy; exact hi y hy
+  | snapshot node txs =>
+    have r := exec_snapshot_rel h
+    intro y hy
+    rcases r.utxoNew y hy with h' | h'
+    · exact r.finMono _ (hi y h')
+    · exact h'
+  | lockDeposit d tx fork =>
+    obtain ⟨u, f⟩ := (exec_frame h).2.1 (by intros; simp) (by intros; simp)
+    intro y hy; rw [f]; rw [u] at hy; exact hi y hy
+  | lockMint b a tx fork =>
+    obtain ⟨u, f⟩ := (exec_frame h).2.1 (by intros; simp) (by intros; simp)
+    intro y hy; rw [f]; rw [u] at hy; exact hi y hy
+  | lockGhostKeys keys tx fork =>
+    obtain ⟨u, f⟩ := (exec_frame h).2.1 (by intros; simp) (by intros; simp)
+    intro y hy; rw [f]; rw [u] at hy; exact hi y hy
+  | writeTx t =>
+    obtain ⟨u, f⟩ := (exec_frame h).2.1 (by intros; simp) (by intros; simp)
+    intro y hy; rw [f]; rw [u] at hy; exact hi y hy
+
+/-- a holder is protected from a call when the call is not a fork call or the holder is finalized -/
+def Prot (s : Store) (op : Op) (t : Nat) : Prop := op.isFork = false ∨ s.fin.get t ≠ none
+
+theorem exec_holder_utxo {c : Cfg} {s s' : Store} {op : Op} {x : Nat × Nat} {t : Nat}
+    (h : exec c s op = .ok s') (hi : Inv s) (hx : s.utxo.get x = some t) (h0 : t ≠ 0) (hp : Prot s op t) :
+    s'.utxo.get x = some t := by
+  cases op with
+  | lockUTXOs ins tx fork =>
+    have h' : lockUTXOs ins tx fork s = .ok s' := by simpa [exec] using h
+    obtain ⟨_, _, _, _, _, _, hin, hout, _⟩ := lockUTXOs_frame h'
+    by_cases hm : x ∈ ins
+    · by_cases e : t = tx
+      · subst e; exact hin x hm
+      · exact absurd h' (lockUTXOs_blocked hm hx h0 e (by simpa [Prot, Op.isFork] using hp) s')
+    · rw [hout x hm]; exact hx
+  | snapshot node txs =>
+    have r := exec_snapshot_rel h
+    rw [r.utxoKeep x (hi x (by rw [hx]; rfl))]; exact hx
+  | lockDeposit d tx fork =>
+    rw [((exec_frame h).2.1 (by intros; simp) (by intros; simp)).1]; exact hx
+  | lockMint b a tx fork =>
+    rw [((exec_frame h).2.1 (by intros; simp) (by intros; simp)).1]; exact hx
+  | lockGhostKeys keys tx fork =>
+    rw [((exec_frame h).2.1 (by intros; simp) (by intros; simp)).1]; exact hx
+  | writeTx t' =>
+    rw [((exec_frame h).2.1 (by intros; simp) (by intros; simp)).1]; exact hx
+
+theorem exec_holder_deposit {c : Cfg} {s s' : Store} {op : Op} {d t : Nat}
+    (h : exec c s op = .ok s') (hx : s.deposit.get d = some t) (hp : Prot s op t) :
+    s'.deposit.get d = some t := by
+  by_cases hop : ∃ d' tx f, op = .lockDeposit d' tx f
+  · obtain ⟨d', tx, f, rfl⟩ := hop
+    simp only [exec] at h
+    rcases lockDeposit_ok h with ⟨hg, rfl⟩ | ⟨_, rfl⟩ | ⟨cur, hg, hne, hf, hfin, rfl⟩
+    · by_cases e : d' = d
+      · subst e; rw [hg] at hx; cases hx
+      · show (s.deposit.set d' tx).get d = some t
+        rw [Map.get_set_ne _ _ e]; exact hx
+    · exact hx
+    · by_cases e : d' = d
+      · subst e; rw [hg] at hx; cases hx
+        rcases hp with hp | hp
+        · simp [Op.isFork, hf] at hp
+        · exact absurd hfin hp
+      · show (s.deposit.set d' tx).get d = some t
+        rw [Map.get_set_ne _ _ e]; exact hx
+  · rw [(exec_frame h).2.2.1 (fun d' tx f e => hop ⟨d', tx, f, e⟩)]; exact hx
+
+theorem exec_holder_mint {c : Cfg} {s s' : Store} {op : Op} {b : Nat} {v : Nat × Nat}
+    (h : exec c s op = .ok s') (hx : s.mint.get b = some v) (hp : Prot s op v.1) :
+    s'.mint.get b = some v := by
+  by_cases hop : ∃ b' a tx f, op = .lockMint b' a tx f
+  · obtain ⟨b', a, tx, f, rfl⟩ := hop
+    simp only [exec] at h
+    rcases lockMint_ok h with ⟨hg, rfl⟩ | ⟨_, rfl⟩ | ⟨cur, hg, hne, hf, hfin, rfl⟩
+    · by_cases e : b' = b
+      · subst e; rw [hg] at hx; cases hx
+      · show (s.mint.set b' (tx, a)).get b = some v
+        rw [Map.get_set_ne _ _ e]; exact hx
+    · exact hx
+    · by_cases e : b' = b
+      · subst e; rw [hg] at hx; cases hx
+        rcases hp with hp | hp
+        · simp [Op.isFork, hf] at hp
+        · exact absurd hfin hp
+      · show (s.mint.set b' (tx, a)).get b = some v
+        rw [Map.get_set_ne _ _ e]; exact hx
+  · rw [(exec_frame h).2.2.2 (fun b' a tx f e => hop ⟨b', a, tx, f, e⟩)]; exact hx
+
 end Mixin.Locks
